@@ -110,6 +110,12 @@ static int fault(int kind)
     sk_yield_hook(kind);
   if (!K || !K->in_api) return 0;
   int side = SIDE;
+  if (side == 0 && K->gfault_index > 0) {
+    /* script-wide fault plan: the g-th fault point of the whole script (any API call, parent side) fails once,
+       with an errno plausible for that kind of call */
+    static const int plausible[21] = { 0, EMFILE, EINTR, EINTR, EINTR, EINTR, EINVAL, EMFILE, EINTR, EAGAIN, EINTR, EPERM, ENOEXEC, EACCES, ENOENT, EINVAL, EFAULT, EINVAL, EINVAL, EINVAL, ENOMEM };
+    if (++K->gcount == K->gfault_index) { K->gfault_kind = kind; K->fault_hits++; return plausible[kind < 21 ? kind : 0] ? plausible[kind < 21 ? kind : 0] : EIO; }
+  } else if (side == 0) K->gcount++;
   int n = ++K->callno[side];
   sk_logev(LK_OTHER, kind, n, 0, 0);
   for (int i = 0; i < K->nfault; i++)
